@@ -140,7 +140,7 @@ def build_binary(u, workdir, log, timeout):
     entry = u.get('entry', 'harness')
     defs = ['-DTINS_VERIF_CBMC']
     if u.get('allow-exc'):
-        cond = ' || '.join('(e) == EXC_%s' % k for k in u.get('allow-exc').split())
+        cond = ' || '.join('(e) == EXC_%s' % k for k in u.get('allow-exc').split() if k != 'none') or '0'     # `allow-exc: none`: every throw is an obligation failure
         defs.append('-DTINS_EXC_ALLOWED(e)=(%s)' % cond)
     for d in u.getlist('define'):
         defs.append('-D' + d)
